@@ -787,4 +787,6 @@ package zygo
 //@ C13 ensures text-is-current: p.lexer.stream == s && len(p.lexer.next) == 0
 //@ func (*Zlisp).LoadStream
 //@ requires stream != nil
-//@ C13 assert text-is-terminated @before call ParseTokens[0]: (len(env.parser.lexer.next) == 1 && env.parser.lexer.stream == stream) || (len(env.parser.lexer.next) == 0 && env.parser.lexer.stream != nil)
+//@ ghost terminatorQueued := false @entry
+//@ ghost terminatorQueued := true @after call AddNextStream[0]
+//@ C13 assert text-is-terminated @before call ParseTokens[0]: terminatorQueued && (len(env.parser.lexer.next) == 1 && env.parser.lexer.stream == stream) || (len(env.parser.lexer.next) == 0 && env.parser.lexer.stream != nil)
